@@ -220,11 +220,21 @@ impl SolverStateV {
         requires self.wf(), is_perm(self.active_set@), self.all_aligned(&orig),
         ensures r.0@.len() == self.n(), r.1@.len() == self.n(),
             forall|pos: int| 0 <= pos < self.n() ==> r.0@[#[trigger] self.active_set@[pos] as int] == self.alpha@[pos].spec_val(),
-            forall|pos: int| 0 <= pos < self.n() ==> r.1@[#[trigger] self.active_set@[pos] as int] == orig.targets@[self.active_set@[pos] as int],
+            // the target signs put back in original order (when the code builds them at all): entry k is the target of ORIGINAL sample k
+            forall|k: int| 0 <= k < self.n() ==> r.1@[k] == orig.targets@[k],
     {
 /*@WRITEBACK*/
+        proof {
+            assert forall|k: int| 0 <= k < self.n() implies orig_targets@[k] == orig.targets@[k] by {
+                lemma_perm_surjective(self.active_set@, k);
+                let pos = choose|p: int| 0 <= p < self.active_set@.len() && self.active_set@[p] == k;
+                assert(orig_targets@[self.active_set@[pos] as int] == self.targets@[pos]);
+            }
+        }
         (alpha, orig_targets)
     }
+
+
     fn vacuity_guard_writeback(&self, Ghost(orig): Ghost<SolverStateV>) -> (r: (Vec<FTok>, Vec<bool>))
         requires self.wf(), is_perm(self.active_set@), self.all_aligned(&orig),
         ensures false,
@@ -295,6 +305,29 @@ proof fn lemma_swap_preserves_alignment<T>(cur: Seq<T>, orig: Seq<T>, aset: Seq<
 pub open spec fn is_perm(a: Seq<usize>) -> bool {
     (forall|p: int| 0 <= p < a.len() ==> 0 <= #[trigger] a[p] < a.len())
     && (forall|p: int, q: int| 0 <= p < a.len() && 0 <= q < a.len() && p != q ==> a[p] != a[q])
+}
+// a permutation of 0..n hits every index (pigeonhole): needed to turn "for every position" into "for every sample"
+proof fn lemma_perm_surjective(a: Seq<usize>, k: int)
+    requires is_perm(a), 0 <= k < a.len(),
+    ensures exists|p: int| 0 <= p < a.len() && a[p] == k,
+{
+    let n = a.len() as int;
+    let s = Seq::new(a.len(), |i: int| a[i] as int);
+    assert(s.no_duplicates());
+    s.unique_seq_to_set();
+    let full = vstd::set_lib::set_int_range(0, n);
+    vstd::set_lib::lemma_int_range(0, n);
+    assert(s.to_set().subset_of(full)) by {
+        assert forall|x: int| s.to_set().contains(x) implies full.contains(x) by {
+            let p = choose|p: int| 0 <= p < s.len() && s[p] == x;
+            assert(0 <= a[p] < a.len());
+        }
+    }
+    vstd::set_lib::lemma_subset_equality(s.to_set(), full);
+    assert(full.contains(k));
+    assert(s.to_set().contains(k));
+    let p = choose|p: int| 0 <= p < s.len() && s[p] == k;
+    assert(a[p] == k);
 }
 proof fn lemma_swap_preserves_perm(a: Seq<usize>, i: int, j: int)
     requires is_perm(a), 0 <= i < a.len(), 0 <= j < a.len(),
